@@ -734,12 +734,81 @@ async fn scenario(c: &Value) -> Value {
   json!({"rows": rows, "pendings": pend, "detail": detail})
 }
 
+/// Failing-input search for "dropping a send() is a no-op", REQ at its pipe-write await: a REQ only reaches a full
+/// path through a sequence - the REP never reads (RCVHWM=1), SNDHWM=1, each recv() of the REQ times out (RCVTIMEO)
+/// and ends the cycle. Requests are issued until a send() is still pending after `drop_ms` and is dropped there;
+/// then the next send() is probed, the REP drains and a send() must complete.
+/// rows: [[80, dropped_seen, accepted_before, code of the next send (0 Ok, 1 still pending, 2 InvalidState, 9 other),
+///         a send completes after the REP drained]]
+async fn req_backpressure(c: &Value) -> Value {
+  let drop_ms = c["drop_ms"].as_u64().unwrap_or(300);
+  let ctx = Context::new().expect("ctx");
+  let ep = endpoint(c["transport"].as_str().unwrap_or("inproc"));
+  let rep = mk_socket(&ctx, "REP", json!({"RCVHWM": 1, "SNDHWM": 1, "LINGER": 0, "RCVTIMEO": 300})).await;
+  rep.bind(&ep).await.expect("bind");
+  let req = mk_socket(&ctx, "REQ", json!({"SNDHWM": 1, "RCVHWM": 1, "RCVTIMEO": 50, "LINGER": 0})).await;
+  req.connect(&ep).await.expect("connect");
+  sleep(Duration::from_millis(120)).await;
+  let big = if ep.starts_with("inproc") { 32 } else { 200 * 1024 };
+  let code = |r: Result<Result<(), ZmqError>, tokio::time::error::Elapsed>| -> u64 {
+    match r {
+      Ok(Ok(())) => 0,
+      Err(_) => 1,
+      Ok(Err(ZmqError::InvalidState(_))) => 2,
+      Ok(Err(_)) => 9,
+    }
+  };
+  let mut accepted = 0u64;
+  let mut dropped = 0u64;
+  let mut next = 9u64;
+  for i in 0..60u64 {
+    let r = timeout(Duration::from_millis(drop_ms), req.send(Msg::from_vec(vec![i as u8; big]))).await;
+    match r {
+      Ok(Ok(())) => {
+        accepted += 1;
+        let _ = timeout(Duration::from_millis(2000), req.recv()).await; // nobody answers: RCVTIMEO ends the cycle
+      }
+      Err(_) => {
+        // the send() future was still pending and has just been dropped
+        dropped = 1;
+        next = code(timeout(Duration::from_millis(300), req.send(Msg::from_vec(vec![0xEE; big]))).await);
+        break;
+      }
+      Ok(Err(_)) => break,
+    }
+  }
+  // the REP drains (and answers) what is queued; afterwards a send must get through
+  let mut completes = 0u64;
+  if dropped == 1 {
+    for _ in 0..40 {
+      if let Ok(Ok(_)) = timeout(Duration::from_millis(100), rep.recv()).await {
+        let _ = timeout(Duration::from_millis(100), rep.send(Msg::from_vec(b"ok".to_vec()))).await;
+      }
+      let _ = timeout(Duration::from_millis(100), req.recv()).await;
+      if let Ok(Ok(())) = timeout(Duration::from_millis(100), req.send(Msg::from_vec(vec![0xAB; 16]))).await {
+        completes = 1;
+        break;
+      }
+    }
+  }
+  let _ = timeout(Duration::from_millis(300), req.close()).await;
+  let _ = timeout(Duration::from_millis(300), rep.close()).await;
+  json!({"rows": [[80, dropped, accepted, next, completes]], "pendings": dropped})
+}
+
 pub fn run_case(c: &Value) -> Value {
   let rt = tokio::runtime::Builder::new_current_thread().enable_all().build().unwrap();
   let c2 = c.clone();
   let res = std::panic::catch_unwind(std::panic::AssertUnwindSafe(|| {
     rt.block_on(async move {
-      match timeout(Duration::from_secs(25), scenario(&c2)).await {
+      let fut = async {
+        if c2["kind"].as_str() == Some("reqbp") {
+          req_backpressure(&c2).await
+        } else {
+          scenario(&c2).await
+        }
+      };
+      match timeout(Duration::from_secs(25), fut).await {
         Ok(v) => v,
         Err(_) => json!({"rows": [[96]], "pendings": 0}),
       }
